@@ -324,6 +324,32 @@ func c02Small(c *Ctx, po bool, N int, ringQ, ringP *ring.Ring, ch c02Chain) {
 				c.Emit("extsmall "+args, Mat(out))
 			}
 			c.Count("extsmall:" + cls)
+			// out-of-place form: polyInQ (all levels of Q) and polyOutQ distinct: polyOutQ must receive a copy of
+			// polyInQ, polyInQ must stay intact, polyOutP must be what the in-place call wrote
+			{
+				lq := len(ch.Q) - 1
+				inQ := c02JunkPoly(r, N, lq)
+				for i := range inQ.Coeffs {
+					for j := range inQ.Coeffs[i] {
+						inQ.Coeffs[i][j] %= ch.Q[i]
+					}
+				}
+				copy(inQ.Coeffs[0], row0)
+				before := c02RowsCopy(inQ, lq+1)
+				outQ := c02JunkPoly(r, N, lq)
+				outP := c02JunkPoly(r, N, levelP)
+				d := ""
+				if c02Panics(func() { rqp.ExtendBasisSmallNormAndCenter(inQ, levelP, outQ, outP) }) {
+					d = "panicked"
+				} else if !c02RowsEq(c02RowsCopy(inQ, lq+1), before) {
+					d = "polyInQ overwritten"
+				} else if !c02RowsEq(c02RowsCopy(outQ, lq+1), before) {
+					d = "polyOutQ is not a copy of polyInQ"
+				} else if !c02RowsEq(c02RowsCopy(outP, levelP+1), out) {
+					d = "polyOutP differs from the in-place call"
+				}
+				c.Probe("extsmall_out_of_place", args, "C02/ExtendBasisSmallNormAndCenter/out-of-place-wrong", d)
+			}
 			if inContract {
 				d := ""
 				for i, p := range ch.P[:levelP+1] {
